@@ -53,6 +53,12 @@ def m_free(it, a):
     p = a[0]
     if isinstance(p, Ptr) and p.obj in it.objs and p.obj != 0: it.objs[p.obj].freed = True
     return None
+def m_realloc(it, a):
+    p, n = a
+    np_ = it.alloc(max(1, n), 'heap')
+    if isinstance(p, Ptr) and p.obj != 0:
+        o = it.objs[p.obj]; it.memcpy(np_, p, min(n, o.size - p.off)); o.freed = True
+    return np_
 def m_memcmp(it, a):
     p, q, n = a
     for i in range(n):
@@ -67,7 +73,7 @@ def m_strlen(it, a): return len(it.cstr(a[0]))
 
 def base():
     M = {
-        '@_Znwm': m_new, '@_Znam': m_new, '@_ZdlPv': m_free, '@_ZdaPv': m_free, '@_ZdlPvm': m_free, '@malloc': m_new, '@free': m_free,
+        '@_Znwm': m_new, '@_Znam': m_new, '@_ZdlPv': m_free, '@_ZdaPv': m_free, '@_ZdlPvm': m_free, '@malloc': m_new, '@free': m_free, '@realloc': m_realloc,
         '@_ZnwmSt11align_val_t': m_new, '@_ZdlPvSt11align_val_t': m_free,
         '@__cxa_allocate_exception': lambda it, a: it.alloc(max(a[0], 16), 'exn'), '@__cxa_free_exception': lambda it, a: None,
         '@__cxa_throw': m_throw, '@__cxa_rethrow': m_thrower, '@__cxa_begin_catch': lambda it, a: a[0], '@__cxa_end_catch': lambda it, a: None,
@@ -160,8 +166,8 @@ def strings():
         're:^@_Z' + B + '10_M_replaceEmmPKcm': m_s_replace, 're:^@_Z' + B + '14_M_replace_auxEmmmc': m_s_replace_aux,
         're:^@_Z' + B + '9_M_assignERKS4_': m_s_assign, 're:^@_Z' + B + '7reserveEm': m_s_reserve,
         're:^@_Z' + B + '9_M_mutateEmmPKcm': m_s_mutate, 're:^@_Z' + B + '8_M_eraseEmm': m_s_erase,
-        're:^@_ZNK' + B[3:] + '4findEcm': m_s_find_c, 're:^@_ZNK' + B[3:] + '4findEPKcmm': m_s_find_s, 're:^@_ZNK' + B[3:] + '5rfindEcm': m_s_rfind_c,
-        're:^@_ZNK' + B[3:] + '7compareERKS4_': m_s_compare, 're:^@_ZNK' + B[3:] + '7compareEPKc': m_s_compare_cstr,
+        're:^@_ZNK' + B[1:] + '4findEcm': m_s_find_c, 're:^@_ZNK' + B[1:] + '4findEPKcmm': m_s_find_s, 're:^@_ZNK' + B[1:] + '5rfindEcm': m_s_rfind_c,
+        're:^@_ZNK' + B[1:] + '7compareERKS4_': m_s_compare, 're:^@_ZNK' + B[1:] + '7compareEPKc': m_s_compare_cstr,
     }
 
 # ---------------- std::list hooks ----------------
